@@ -222,6 +222,22 @@ theorem leaf_exact (version kind : String) (kw : List (String × Val)) (n : Node
     rw [leaf_native_roundtrip version k f' i o hw hg hnt hnm hnative f hwr, ← construct_meta_default k f' hnm]
     exact hidem
 
+/-- … and the same for **Conv2d** (stored stride / padding / dilation are pairs). -/
+theorem leaf_exact_conv2d (version : String) (kw : List (String × Val)) (n : Node)
+    (h : construct "Conv2d" kw = .ok n) (hmeta : n.metadata = .dict [])
+    (hnative : ∀ k v, lookup k n.fields = some v → backVal v = some v)
+    (f : H5) (hwr : write version n = .ok f) : read f = .ok n := by
+  obtain ⟨hkind, hc, he⟩ := construct_kind "Conv2d" kw n h
+  obtain ⟨hnt, hnm⟩ := construct_conv2d_clean kw n h
+  have hidem := construct_idem_conv2d kw n h
+  cases n with
+  | mk k f' i o m c e =>
+    simp only [Node.kind, Node.children, Node.edges, Node.fields, Node.metadata] at hkind hc he hnt hnm hidem hmeta hnative
+    subst hkind hc he hmeta
+    rw [leaf_native_roundtrip version "Conv2d" f' i o (by decide) (by decide) hnt hnm hnative f hwr,
+      ← construct_meta_default "Conv2d" f' hnm]
+    exact hidem
+
 /-! ## end to end for whole (flat) graphs -/
 
 def GenericKind (kind : String) : Prop :=
